@@ -1069,6 +1069,9 @@ const SCENARIOS: &[&str] = &[
     "bundle-as-ca",
     "bundle-for-both",
     "bundle-chain-key",
+    // DER instead of PEM: the key file (and the certificate file) in binary form
+    "der-key",
+    "der-both",
 ];
 
 /// (ca, cert, key) paths for a scenario; damaged files are written below `dir`
@@ -1142,6 +1145,30 @@ fn scenario_files(dir: &PathBuf, sc: &str, key: &str) -> (String, String, String
         ),
         "no-final-newline" => (ca, certp, damaged(text.trim_end().to_string())),
         "crlf" => (ca, certp, damaged(lines.join("\r\n") + "\r\n")),
+        "der-key" | "der-both" => {
+            use std::io::BufReader;
+            let kd = rustls_pemfile::private_key(&mut BufReader::new(text.as_bytes()))
+                .ok()
+                .flatten()
+                .map(|k| k.secret_der().to_vec())
+                .unwrap_or_default();
+            let kp = dir.join(format!("{sc}-{key}.key.der"));
+            std::fs::write(&kp, &kd).unwrap();
+            let cert_text = std::fs::read_to_string(&certp).unwrap();
+            let cd = rustls_pemfile::certs(&mut BufReader::new(cert_text.as_bytes()))
+                .next()
+                .and_then(|c| c.ok())
+                .map(|c| c.as_ref().to_vec())
+                .unwrap_or_default();
+            let cp = dir.join(format!("{sc}-{key}.crt.der"));
+            std::fs::write(&cp, &cd).unwrap();
+            let kp = kp.to_str().unwrap().to_string();
+            if sc == "der-both" {
+                (ca, cp.to_str().unwrap().to_string(), kp)
+            } else {
+                (ca, certp, kp)
+            }
+        }
         "bundle-cert-key" | "bundle-key-cert" | "bundle-as-ca" | "bundle-for-both"
         | "bundle-chain-key" => {
             let cert_text = std::fs::read_to_string(&certp).unwrap();
